@@ -187,7 +187,7 @@ pub fn run_c07(chk: &Check, tier: Tier) {
     for (i, &c) in channels.iter().enumerate() {
         // reachable states of channel c: the complete concrete fixpoint of the real scanner
         let sys = c08_system("C07", c, Report::default(), &all_values());
-        let out = xs::explore(&sys, &Limits { restoration_check: false, ..Default::default() });
+        let out = xs::explore(&sys, &Limits::default());
         engine::record(chk, &sys, &out, None);
         let states: Vec<ControlChange14BitMessageScanner> = out.nodes.iter().map(|n| n.state.sc).collect();
         // full concrete product on the first channel (quick) / on every channel (thorough);
